@@ -274,6 +274,16 @@ func mayReturnNilFuncs(p *Prog) map[*ssa.Function]map[int]bool {
 						out[fn][i] = true
 					}
 				}
+				// a pointer variable handed by address to a JSON/XML decoder: the document `null`
+				// sets it to nil
+				if u, ok := rv.(*ssa.UnOp); ok && u.Op == token.MUL {
+					if al, ok := u.X.(*ssa.Alloc); ok && decodedByAddress(al) {
+						if out[fn] == nil {
+							out[fn] = map[int]bool{}
+						}
+						out[fn][i] = true
+					}
+				}
 			}
 		}
 	}
@@ -420,6 +430,24 @@ func nilResiduals(p *Prog) []nilUse {
 					continue
 				}
 				out = append(out, nilUse{fn, in, src, fieldName(fa)})
+			}
+		}
+		// a pointer variable decoded by address (json `null` -> nil) and dereferenced in the same function
+		for _, b := range fn.Blocks {
+			for _, in := range b.Instrs {
+				fa, ok := in.(*ssa.FieldAddr)
+				if !ok {
+					continue
+				}
+				ld, ok := fa.X.(*ssa.UnOp)
+				if !ok || ld.Op != token.MUL {
+					continue
+				}
+				al, ok := ld.X.(*ssa.Alloc)
+				if !ok || !decodedByAddress(al) || nilGuarded(ld, in) {
+					continue
+				}
+				out = append(out, nilUse{fn, in, "pointer decoded by address (document `null`)", fieldName(fa)})
 			}
 		}
 		// pointer fields that the module itself resets to nil (x.f = nil): a dereference of a
@@ -1367,4 +1395,37 @@ func nilResetFields(p *Prog) map[string]bool {
 		}
 	}
 	return nilResetCache
+}
+
+
+// decodedByAddress: the address of the pointer-typed local al (a **T) is passed
+// to encoding/json or encoding/xml Unmarshal / Decode.
+func decodedByAddress(al *ssa.Alloc) bool {
+	if _, isPtr := al.Type().Underlying().(*types.Pointer).Elem().Underlying().(*types.Pointer); !isPtr {
+		return false
+	}
+	if al.Referrers() == nil {
+		return false
+	}
+	for _, ref := range *al.Referrers() {
+		var v ssa.Value
+		switch x := ref.(type) {
+		case *ssa.MakeInterface:
+			v = x
+		default:
+			continue
+		}
+		if v.Referrers() == nil {
+			continue
+		}
+		for _, r2 := range *v.Referrers() {
+			if c, ok := r2.(ssa.CallInstruction); ok {
+				n := (&callSite{In: c, Static: c.Common().StaticCallee()}).calleeName()
+				if strings.HasSuffix(n, ".Unmarshal") || strings.HasSuffix(n, ".Decode") || strings.HasSuffix(n, ".DecodeElement") {
+					return true
+				}
+			}
+		}
+	}
+	return false
 }
